@@ -279,8 +279,21 @@ def check_graph(spec: dict, orders: list[list[int]], tag: str) -> tuple[list[dic
         expect_vals = ref
     viols: list[dict] = []
     info = {"missing": bool(ref_missing), "cycle": ref_cycle, "orders": len(orders)}
-    for order in orders:
-        model = rm.build(spec, order)
+    builds: list = list(orders)
+    swappable = [i for i, c in enumerate(spec["components"]) if c["kind"] in ("surrogate", "derived", "reaction") and c.get("args")]
+    if swappable:
+        # the same graph reached by a swap: one component first names only a plain quantity, the model is evaluated, and the
+        # component is then exchanged for what the graph says (a surrogate as a new object that carries its own names)
+        builds.append(("swap", swappable[_STATE["calls"] % len(swappable)]))
+    for order in builds:
+        if isinstance(order, tuple):
+            model = _build_by_swap(spec, order[1])
+            if model is None:
+                continue
+            order = f"component {spec['components'][order[1]]['name']} swapped in after an evaluation"  # noqa: PLW2901
+            HISTORY["graph reached by swapping a component in"] = HISTORY.get("graph reached by swapping a component in", 0) + 1
+        else:
+            model = rm.build(spec, order)
         obs = _observe(model)
         _STATE["calls"] += 1
         if n_sort:
@@ -405,6 +418,39 @@ def check_graph(spec: dict, orders: list[list[int]], tag: str) -> tuple[list[dic
 
 
 HISTORY: dict[str, int] = {}
+
+
+def _build_by_swap(spec: dict, idx: int):  # noqa: ANN202
+    import copy
+
+    from mxlpy.surrogates.abstract import MockSurrogate
+
+    c = spec["components"][idx]
+    plain = [x["name"] for x in spec["components"] if x["kind"] in ("parameter", "variable") and "value" in x]
+    if not plain:
+        return None
+    pre = copy.deepcopy(spec)
+    pre["components"][idx]["args"] = [plain[0]] * len(c["args"])
+    try:
+        model = rm.build(pre)
+    except Exception:  # noqa: BLE001
+        return None
+    try:
+        model.get_args()
+    except Exception:  # noqa: BLE001, S110
+        pass  # (the rest of the graph is not valid either: the swap is still made)
+    try:
+        if c["kind"] == "surrogate":
+            model.update_surrogate(c["name"], MockSurrogate(fn=rm.fn_of(c), args=list(c["args"]), outputs=list(c["outputs"]), stoichiometries={
+                f: {k: rm._coef_real_surrogate(v) for k, v in st.items()} for f, st in c.get("stoich", {}).items()}))  # noqa: SLF001
+            HISTORY["surrogate exchanged for a new object that carries its own names"] = HISTORY.get("surrogate exchanged for a new object that carries its own names", 0) + 1
+        elif c["kind"] == "derived":
+            model.update_derived(c["name"], args=list(c["args"]))
+        else:
+            model.update_reaction(c["name"], args=list(c["args"]))
+    except Exception:  # noqa: BLE001
+        return None  # (an edit that is refused at once is C03's subject)
+    return model
 
 
 def _missing_msg_ok(msg: str, expected: dict[str, list[str]]) -> bool:
